@@ -81,7 +81,14 @@ func (x *Evaluator) evalCallR(call *ssa.Call, idx int, e *env, c *evalCtx, recvO
 	if e.opaqueResult != nil && e.opaqueResult(callee) {
 		origin := "VALUE"
 		if len(cc.Args) > 1 {
-			origin = "VALUE(" + describeVal(x.evalC(cc.Args[1], e, c)) + ")"
+			av := x.evalC(cc.Args[1], e, c)
+			d := describeVal(av)
+			if sv, ok := av.(StrV); ok && len(sv.T) == 1 {
+				if h, ok := sv.T[0].(Hole); ok {
+					d = h.Origin
+				}
+			}
+			origin = "VALUE(" + d + ")"
 		}
 		return x.symbolic(resultType(call, idx), origin)
 	}
